@@ -18,7 +18,7 @@ import os
 
 import numpy as np
 
-from .. import inject
+from .. import core, inject
 from ..oracles import atm_ref
 from ..oracles import cphot_ref as CR
 from ..oracles import geom_ref as G
@@ -266,6 +266,7 @@ def fullrun_part(ctx, rng):
         cfg.detector.initial_position.latitude, cfg.detector.initial_position.longitude = 0.6, dlon
         cfg.detector.radio.enable = False
         cfg.simulation.spectrum.log_nu_energy = 12.0  # long decay lengths: more decays above 20 km
+        cfg = core.validated(cfg, "C09 full-run configuration")
         asked = []
         o_call = CloudTopHeight.__dict__["__call__"]
 
